@@ -71,6 +71,7 @@ structure Trie (nodes : List (ACNode α)) (paths : List (List α)) : Prop where
     (alookup a (acGet nodes i).succ = some j ↔ paths[j]? = some (x ++ [a]))
   pclosed : ∀ (j : Nat) (x : List α) (a : α), paths[j]? = some (x ++ [a]) → ∃ i : Nat, paths[i]? = some x
   entries : ∀ (i : Nat) (a : α) (j : Nat), (a, j) ∈ (acGet nodes i).succ → alookup a (acGet nodes i).succ = some j
+  keysNodup : ∀ i : Nat, (akeys (acGet nodes i).succ).Nodup
 
 theorem Trie.pos {nodes : List (ACNode α)} {paths : List (List α)} (h : Trie nodes paths) :
     0 < nodes.length := by
@@ -151,7 +152,7 @@ theorem insertSym_spec {nodes : List (ACNode α)} {paths : List (List α)} (h : 
         · simp only [h2, if_false]
           rw [List.getElem?_eq_none]; simp; omega
     refine ⟨paths ++ [x ++ [a]], ?_, ?_, ?_, ?_, ?_, ?_, ?_⟩
-    · refine ⟨by simp [hplen], ?_, ?_, ?_, ?_, ?_⟩
+    · refine ⟨by simp [hplen], ?_, ?_, ?_, ?_, ?_, ?_⟩
       · rw [hpget]; simp [h.pos, h.root]
       · intro i j y hi hj
         rw [hpget] at hi hj
@@ -292,6 +293,22 @@ theorem insertSym_spec {nodes : List (ACNode α)} {paths : List (List α)} (h : 
               rw [hl]; simp
           · simp only [h2, if_false] at hmem ⊢
             exact h.entries i b j hmem
+      · intro i
+        rw [hget]
+        by_cases h1 : i = nodes.length
+        · simp [h1, ACNode.empty, akeys]
+        · simp only [h1, if_false]
+          by_cases h2 : i = cur
+          · simp only [h2, if_true]
+            have hk : a ∉ akeys (acGet nodes cur).succ := alookup_eq_none_iff.mp hl
+            simp only [akeys, List.map_append, List.map_cons, List.map_nil]
+            rw [List.nodup_append]
+            refine ⟨h.keysNodup cur, by simp, ?_⟩
+            intro b hb c hc
+            simp only [List.mem_singleton] at hc
+            subst hc
+            intro e; subst e; exact hk hb
+          · simp only [h2, if_false]; exact h.keysNodup i
     · rw [hpget]; simp
     · intro y
       rw [List.mem_append]
@@ -403,7 +420,7 @@ theorem insertWord_spec {pats : List (List α)} {nodes : List (ACNode α)} {path
     simp only
     rw [acGet_set _ _ _ _ hend]
   refine ⟨p1, ⟨?_, ?_, ?_, ?_⟩⟩
-  · refine ⟨by rw [t1.len]; unfold acInsertWord; simp, t1.root, t1.inj, ?_, t1.pclosed, ?_⟩
+  · refine ⟨by rw [t1.len]; unfold acInsertWord; simp, t1.root, t1.inj, ?_, t1.pclosed, ?_, ?_⟩
     · intro i x a j hi
       rw [hget]
       by_cases h1 : i = (w.foldl acInsertSym (nodes, 0)).2
@@ -414,6 +431,11 @@ theorem insertWord_spec {pats : List (List α)} {nodes : List (ACNode α)} {path
       by_cases h1 : i = (w.foldl acInsertSym (nodes, 0)).2
       · simp only [h1, if_true] at hm ⊢; exact t1.entries _ a j hm
       · simp only [h1, if_false] at hm ⊢; exact t1.entries i a j hm
+    · intro i
+      rw [hget]
+      by_cases h1 : i = (w.foldl acInsertSym (nodes, 0)).2
+      · simp only [h1, if_true]; exact t1.keysNodup _
+      · simp only [h1, if_false]; exact t1.keysNodup i
   · intro y
     rw [m1, h.mem]
     constructor
@@ -467,7 +489,7 @@ theorem insertWord_spec {pats : List (List α)} {nodes : List (ACNode α)} {path
       · exact (n1 i (by omega)).2
 
 theorem trieOf_init : TrieOf ([] : List (List α)) [ACNode.empty] [[]] := by
-  refine ⟨⟨rfl, rfl, ?_, ?_, ?_, ?_⟩, ?_, ?_, ?_⟩
+  refine ⟨⟨rfl, rfl, ?_, ?_, ?_, ?_, ?_⟩, ?_, ?_, ?_⟩
   · intro i j x hi hj
     have h1 := lt_of_getElem? hi
     have h2 := lt_of_getElem? hj
@@ -494,6 +516,10 @@ theorem trieOf_init : TrieOf ([] : List (List α)) [ACNode.empty] [[]] := by
     by_cases h : i = 0
     · subst h; simp [acGet, ACNode.empty] at hm
     · rw [acGet_out_of_range _ i (by simp; omega)] at hm; simp [ACNode.empty] at hm
+  · intro i
+    by_cases h : i = 0
+    · subst h; simp [acGet, ACNode.empty, akeys]
+    · rw [acGet_out_of_range _ i (by simp; omega)]; simp [ACNode.empty, akeys]
   · intro y; simp
   · intro i y hi
     have h1 := lt_of_getElem? hi
